@@ -8,6 +8,10 @@
 //!       target `R1` and checks that `draw` emits exactly the same pixel sequence in one
 //!       `draw_iter` call.
 //!
+//! Lean statements mirrored: `thick_width1_eq_points` (C17:thick-width1), `thick_contains_thin`
+//! (C17:thick-contains-thin; proved in the stronger form "the pixel sequence starts with points()");
+//! the other predicates are `-- [V]` sub-claims of lean/EG/Props/C17.lean (oracle only).
+//!
 //! Oracle = the second sentence of C17 as predicates on the real pixel list, with FIXED metrics,
 //! all in exact integer arithmetic (i128). Notation: s = start, d = (dx, dy) = end - start,
 //! L2 = dx^2 + dy^2 (L = sqrt(L2) is never computed), and for a pixel p with v = p - s:
